@@ -438,6 +438,18 @@ func (p c17) full(c *core.C, d clDoc) {
 	}
 }
 
+// sameDate: two trailer dates that differ at most in how the day of the month is written.
+func sameDate(a, b string) bool {
+	ta, oka := dpkgDate(a)
+	tb, okb := dpkgDate(b)
+	if !oka || !okb {
+		return a == b
+	}
+	_, za := ta.Zone()
+	_, zb := tb.Zone()
+	return ta.Equal(tb) && za == zb
+}
+
 type c17Prefix struct {
 	Doc clDoc `json:"doc"`
 	P   int   `json:"p"`
@@ -597,7 +609,7 @@ func (p c17) RunBatch(t *core.T, b core.Batch) {
 				}
 				for k, e := range d.Entries {
 					get := func(f string) string { return strings.Join(ref[k].Lines[f], "\n") }
-					if get("Source") != e.Source || get("Version") != e.Version || get("Distribution") != strings.Join(e.Dists, " ") || get("Maintainer") != e.Who || get("Date") != e.When {
+					if get("Source") != e.Source || get("Version") != e.Version || get("Distribution") != strings.Join(e.Dists, " ") || get("Maintainer") != e.Who || !sameDate(get("Date"), e.When) {
 						c.Cover("~inconclusive:dpkg-parsechangelog reads an entry differently from the generator's model (generator self-check)")
 						t.AddSample("dpkg-disagrees", text, fmt.Sprintf("entry %d: dpkg %q/%q/%q/%q/%q", k, get("Source"), get("Version"), get("Distribution"), get("Maintainer"), get("Date")))
 						return
